@@ -145,7 +145,7 @@ def _worker(task):
     set_active(E)
     st = {"unit": unit.name, "cidx": cidx, "paths": 0, "inconclusive": 0, "inconclusive_reasons": {}, "nontrivial": 0,
           "discharged": 0, "q_unknown": 0, "violations": [], "nonrepro": 0, "witness_ok": 0, "witness_bad": [],
-          "tags": {}, "samples": [], "distinct": set(), "nonrepro_clauses": {}}
+          "tags": {}, "samples": [], "distinct": set(), "nonrepro_clauses": {}, "nonrepro_samples": []}
     counter = [0]
 
     def _alarm(signum, frame):
@@ -198,6 +198,9 @@ def _worker(task):
                         st["nonrepro"] += 1
                         k = ("unreachable pre-state / input leaves the path: " if res is None else "clause holds concretely: ") + name
                         st["nonrepro_clauses"][k] = st["nonrepro_clauses"].get(k, 0) + 1
+                        if len(st["nonrepro_samples"]) < 2:
+                            st["nonrepro_samples"].append({"cfg": cfg, "clause": name, "snapshot": jsonable(snap),
+                                                           "symbolic_outcome": jsonable(norm(E.concretize(out))) if False else None})
                         continue
                     failures, cout, _ = res
                     try:    # the same input in native int/float arithmetic (recorded, not required)
@@ -353,6 +356,7 @@ def run_property(modname, prop, tier, seed, nproc=None, budget_s=None):
     per_unit = {}
     violations, witness_bad, samples, reasons, tags = [], [], [], {}, {}
     nonrepro_clauses = {}
+    nonrepro_samples = []
     distinct = set()
     exhausted = skipped[0] == 0
     nonlinear = False
@@ -388,13 +392,16 @@ def run_property(modname, prop, tier, seed, nproc=None, budget_s=None):
             tags[t] = tags.get(t, 0) + n
         for t, n in st.get("nonrepro_clauses", {}).items():
             nonrepro_clauses[t] = nonrepro_clauses.get(t, 0) + n
+        for smp in st.get("nonrepro_samples", []):
+            if len(nonrepro_samples) < 6:
+                nonrepro_samples.append(smp)
         distinct.update((st["unit"], st["cidx"], d) for d in st["distinct"])
     for pu in per_unit.values():
         pu["configs"] = len(pu["configs"])
         pu["solver_s"] = round(pu["solver_s"], 2)
     return {"units": units, "tot": tot, "per_unit": per_unit, "violations": violations, "witness_bad": witness_bad,
             "samples": samples, "reasons": reasons, "tags": tags, "distinct": len(distinct), "exhausted": exhausted,
-            "nonrepro_clauses": nonrepro_clauses, "crashes": crashes, "wall": time.time() - t0, "nonlinear": nonlinear, "ntasks": len(results), "xc": xc, "xc_dis": xc_dis}
+            "nonrepro_clauses": nonrepro_clauses, "nonrepro_samples": nonrepro_samples, "crashes": crashes, "wall": time.time() - t0, "nonlinear": nonlinear, "ntasks": len(results), "xc": xc, "xc_dis": xc_dis}
 
 
 LEVELS = {"C09": "other", "C10": "other"}
@@ -487,6 +494,7 @@ def finish(prop, tier, seed, R, level_note=""):
             "inconclusive_paths": tot["inconclusive"], "inconclusive_reasons": R["reasons"],
             "solver_unknown_answers": tot["unknowns"], "realisation_forks": tot["realisations"],
             "candidate_models_not_reproduced": tot["nonrepro"], "candidate_models_not_reproduced_by_clause": R.get("nonrepro_clauses", {}),
+            "candidate_models_not_reproduced_samples": R.get("nonrepro_samples", []),
             "cvc5_cross_check_of_sampled_queries": R.get("xc", {}),
             "witness_replays_agreeing": tot["witness_ok"], "witness_replays_disagreeing": len(R["witness_bad"]),
             "path_tags": R["tags"], "tasks": R["ntasks"],
